@@ -59,7 +59,7 @@ def reference_transformation(tier="quick", seed=0, only=None):
     for name, (mk, x0, y0) in S.items():
         for fmt in ("coo", "csr", "csc"):
             for ow in (0, 3, -2):
-                for rep in range(1 if tier == "quick" else 4):
+                for rep in (range(1) if tier == "quick" else range(4)) if ow != 0 else range(-3, 1 if tier == "quick" else 4):
                     problem = mk(fmt) if fmt else mk()
                     if rep % 2 == 0:
                         # callbacks that hand out the SAME (memoised) array / matrix objects on every call
@@ -69,6 +69,14 @@ def reference_transformation(tier="quick", seed=0, only=None):
                     n, m = problem.num_vars, problem.num_cons
                     vw = rng.integers(-3, 4, size=n)
                     cw = rng.integers(-3, 4, size=m)
+                    # degenerate weight patterns (only with obj_weight == 0): rows only, variables only, nothing at all
+                    if rep == -3:
+                        vw = np.zeros(n, int)
+                        cw = np.where(cw == 0, 2, cw)
+                    elif rep == -2:
+                        cw = np.zeros(m, int)
+                    elif rep == -1:
+                        vw, cw = np.zeros(n, int), np.zeros(m, int)
                     inp = dict(scenario=name, format=fmt, obj_weight=ow, var_weights=vw.tolist(), cons_weights=cw.tolist())
                     if only is not None and only != inp:
                         continue
@@ -111,4 +119,4 @@ def reference_transformation(tier="quick", seed=0, only=None):
                         exp = np.clip(cs[ref["pos"]], (problem.cons_lb * P(cw))[ref["pos"]], (problem.cons_ub * P(cw))[ref["pos"]])
                         if not eq(it.x[n:], exp):
                             fail("C04:starting_slacks==clip(c(x0),l,u)", inp, (it.x[n:].tolist(), exp.tolist()))
-    return result(cases, failures, "scenario list x {COO,CSR,CSC} x obj_weight in {0,3,-2} x random integer weights in [-3,3], bit-for-bit comparison")
+    return result(cases, failures, "scenario list x {COO,CSR,CSC} x obj_weight in {0,3,-2} x random integer weights in [-3,3] (and rows-only / variables-only / all-zero weights), bit-for-bit comparison")
